@@ -472,6 +472,10 @@ async fn run_on(store: &SqliteStore, byzantine: bool) {
             if !deleted.is_empty() {
                 violation("rows-deleted-by-unflagged-operation", "accepted operation without prune flag", format!("{}: deleted {}", d.label, rows_str(&deleted)));
             }
+        } else if !after.contains(&(d.claimed, d.topic, seq, d.op.hash)) {
+            // Accepted and flagged, but the operation itself is not in its log afterwards: the
+            // prune it triggered took an entry whose sequence number is not smaller than its own.
+            violation("prune-outside-own-log-prefix", "the accepted prune operation itself is gone after its own processing", format!("{}: log {}:t{} holds {} afterwards", d.label, NAMES[d.claimed], d.topic, rows_str(&after.iter().filter(|r| r.0 == d.claimed && r.1 == d.topic).cloned().collect())));
         } else if deleted != scope {
             let extra: BTreeSet<Row> = deleted.difference(&scope).cloned().collect();
             let missing: BTreeSet<Row> = scope.difference(&deleted).cloned().collect();
